@@ -181,19 +181,20 @@ add("C12", "server handshake",
 
 add("C07", "untrusted input never panics / hangs / over-allocates",
     [H("vfH_parsers_nopanic", ["parsers-end"], 400), H("vfH_frame_nopanic", ["frame-nopanic-end"], 300), H("vfH_read_step_data", ["step-accepted", "step-protocol-error"], 500),
-     H("vfH_read_step_ctl", ["ctl-protocol-error", "ctl-close"], 500), H("vfH_connect_reply", ["connect-reply-end"]), H("vfH_dial_reply", ["dial-reply-end"], 400), TWIN("vfH_parsers_nopanic"), TWIN("vfH_frame_nopanic")],
+     H("vfH_read_step_ctl", ["ctl-protocol-error", "ctl-close"], 500), H("vfH_connect_reply", ["connect-reply-end"]), H("vfH_dial_reply", ["dial-reply-end"], 400), H("vfH_socks_reply", ["socks-tunnel", "socks-refused"], 400), TWIN("vfH_parsers_nopanic"), TWIN("vfH_frame_nopanic")],
     [H("vfH_parsers_nopanic", ["parsers-end"], 3000, {"N": 8}), H("vfH_read_step_data", ["step-accepted"], 1800, {"tier": 1}), H("vfH_read_step_ctl", ["ctl-close"], 2400, {"tier": 1})],
     ["frame bytes: the inductive reader step (any state, every first-two-byte value, every extended length, every key, control payloads per C04) runs with runtime checks (nil, index, slice, divide, type assertion, explicit panic) as feasibility queries, an allocation bound of 600-700 bytes and the step structure 'an error is returned or input is consumed'; plus one data frame of claimed length 1, 2 or >= 16384 (up to 2^64-1, any length form) followed by 2 bytes, read by ReadMessage / NextReader+Read / JoinMessages with allocation bound 1100 bytes and unwinding bound 200",
      "header values: tokenListContainsValue, parseExtensions, nextTokenOrQuoted, equalASCIIFold, Subprotocols, isValidChallengeKey, hostPortNoPort, selectSubprotocol on every string of <= 6 (thorough 8) arbitrary bytes; unwinding bound 4n+16, allocation bound 64+4n",
-     "CONNECT reply and Dial reply: arbitrary 3-digit status, optional space and 2-byte reason phrase, header values from templates"],
+     "CONNECT reply and Dial reply: arbitrary 3-digit status, optional space and 2-byte reason phrase, header values from templates",
+     "SOCKS5 proxy replies: arbitrary method-selection, authentication-status and reply-head bytes (see C18) with allocation bound 4096 and unwinding bound 300"],
     ["panics, loops and allocation inside net/http, net/url, compress/flate, encoding/json (modelled or not executed)", "wall-clock hangs (the unwinding bound stands in for them)", "arbitrary compressed payloads (outside the stored-block model)", "mid-range claimed lengths 3..16383 in the ReadMessage program (covered for header handling by the inductive step)"],
     ASSUME_COMMON + [CLOCK], STUB_COMMON + ["net/http.ReadResponse / Request.Write -> object-level models consuming/producing the head bytes"],
     LV + "The assertion is implicit: no feasible path ends in a panic, exceeds its declared unwinding bound or allocates beyond the declared bound.",
     "trusted: engine's encoding of Go's runtime checks, z3; stubbed packages are outside")
 
-DIAL_BOUNDS = ["DialContext executed on configurations and replies one (thorough: two) dimension(s) away from a plain successful ws:// dial: URL shapes (port, IPv6 literal, query, empty path), bad schemes (http, any two lower-case letters) and userinfo, wss with ServerName / InsecureSkipVerify / NetDialTLSContext and TLS handshake / verification failure, NetDial / NetDialContext / default dialer, http / https proxy with none / user / user:password credentials and ws / wss backend, Subprotocols, EnableCompression, HandshakeTimeout, context deadline (symbolic), benign caller headers, each protocol-owned caller header in canonical / RFC / lower-case spelling, reply status (any 3-digit code, optional reason), Upgrade / Connection line variants, wrong (28 arbitrary characters) or missing Accept, extension reply variants, subprotocol, refused handshake with a body of 0 / 10 / 1024 / 1500 bytes, dial error, request write error, transport fault at each of the first 3 write-side operations, two server frames glued to the 101 response"]
-DIAL_OUT = ["url.Parse, Request.Write serialisation, http.ReadResponse parsing, cookies: modelled at object level on template inputs", "certificate validation itself (crypto/tls), SOCKS5 negotiation (x/net/proxy), environment proxies, DNS", "SHA-1 as a function (uninterpreted, collision-free)"]
-DIAL_STUBS = STUB_COMMON + ["net/url.Parse -> answers from the harness's template knowledge", "(*http.Request).Write / http.ReadResponse -> object-level models that produce / consume the head bytes on the scripted connection", "crypto/tls Client/HandshakeContext/VerifyHostname/Close -> call-trace model (Close closes the wrapped connection, as documented)", "context, httptrace -> harness types", "crypto/sha1 -> uninterpreted function"]
+DIAL_BOUNDS = ["DialContext executed on configurations and replies one (thorough: two) dimension(s) away from a plain successful ws:// dial: URL shapes (port, IPv6 literal, query, empty path), bad schemes (http, any two lower-case letters) and userinfo, wss with ServerName / InsecureSkipVerify / NetDialTLSContext and TLS handshake / verification failure, NetDial / NetDialContext / default dialer, http / https / socks5 proxy with none / user / user:password credentials and ws / wss backend, Subprotocols, EnableCompression, HandshakeTimeout, context deadline (symbolic), benign caller headers, each protocol-owned caller header in canonical / RFC / lower-case spelling, reply status (any 3-digit code, optional reason), Upgrade / Connection line variants, wrong (28 arbitrary characters) or missing Accept, extension reply variants, subprotocol, refused handshake with a body of 0 / 10 / 1024 / 1500 bytes, dial error, request write error, transport fault at each of the first 3 write-side operations, two server frames glued to the 101 response"]
+DIAL_OUT = ["url.Parse, Request.Write serialisation, http.ReadResponse parsing, cookies: modelled at object level on template inputs", "certificate validation itself (crypto/tls), environment proxies, DNS", "SOCKS5: replies outside the RFC 1928 layout bounds of vfH_socks_reply (bound-address FQDN lengths other than 0/3/255), GSSAPI and other methods, cancellation of the context during the negotiation (x/net's watcher goroutine is scheduled non-preemptively and never fires)", "SHA-1 as a function (uninterpreted, collision-free)"]
+DIAL_STUBS = STUB_COMMON + ["net/url.Parse -> answers from the harness's template knowledge", "(*http.Request).Write / http.ReadResponse -> object-level models that produce / consume the head bytes on the scripted connection", "crypto/tls Client/HandshakeContext/VerifyHostname/Close -> call-trace model (Close closes the wrapped connection, as documented)", "context, httptrace -> harness types", "crypto/sha1 -> uninterpreted function", "golang.org/x/net/proxy and golang.org/x/net/internal/socks: NOT stubbed - executed from their SSA together with proxyFromURL"]
 
 add("C14", "client handshake",
     [H("vfH_dial_logic", ["dial-success", "dial-refused", "dial-malformed", "dial-forbidden-header"], 600), H("vfH_tokenlist_diff", ["tokenlist-end"], 300), TWIN("vfH_dial_logic")],
@@ -226,10 +227,11 @@ add("C15", "compression agreement",
     LV, "trusted: engine translation, z3, object-level net/http models, stored-block flate model")
 
 add("C16", "handshake cleanup and deadlines (reduced)",
-    [H("vfH_upgrade_logic", ["upgrade-post-hijack-failure", "upgrade-success"], 600, {"focus": 11}), H("vfH_dial_logic", ["dial-success", "dial-refused"], 600), H("vfH_connect_reply", ["connect-reply-end"]), TWIN("vfH_connect_reply")],
-    [H("vfH_dial_logic", ["dial-success", "dial-refused"], 3400, {"tier": 1}), H("vfH_upgrade_logic", ["upgrade-success"], 3000, {"tier": 1})],
+    [H("vfH_upgrade_logic", ["upgrade-post-hijack-failure", "upgrade-success"], 600, {"focus": 11}), H("vfH_dial_logic", ["dial-success", "dial-refused"], 600), H("vfH_connect_reply", ["connect-reply-end"]), H("vfH_socks_reply", ["socks-tunnel", "socks-refused"], 400), H("vfH_dial_logic", ["dial-success", "dial-refused"], 600, {"dim": 4, "dim2": 5, "proxy": 3}), TWIN("vfH_connect_reply")],
+    [H("vfH_dial_logic", ["dial-success", "dial-refused"], 3400, {"tier": 1}), H("vfH_upgrade_logic", ["upgrade-success"], 3000, {"tier": 1}), H("vfH_socks_reply", ["socks-tunnel", "socks-refused"], 3000, {"tier": 1})],
     DIAL_BOUNDS + ["server: hijack failure; transport fault at each of the first 3 post-hijack operations with HandshakeTimeout on/off: before hijack the library never touches the connection, after hijack every failure closes it, success leaves it open with the write deadline cleared",
-     "CONNECT proxy dialer: arbitrary reply status; refusal closes the proxy connection"],
+     "with HandshakeTimeout or a context deadline, the deadline in force at EVERY transport Read / Write between the start and the return of DialContext is non-zero and no later than the context's (scripted-transport paths; quick: every single dimension, plus socks5 proxy x timeout/deadline; thorough: every pair)",
+     "CONNECT proxy dialer: arbitrary reply status; refusal closes the proxy connection", "SOCKS5 (vfH_socks_reply): proxyFromURL + the real x/net SOCKS5 client against a scripted proxy whose method-selection (2), RFC 1929 status (2) and reply head (4) bytes are arbitrary and whose bound address is IPv4 / IPv6 / FQDN of length 0, 3, 255 / an unknown type, for socks5 / socks5h URLs with default or explicit port, none / user / user:password credentials, FQDN / IPv4 / IPv6 targets, one (thorough: two) of: stream cut at 5 offsets with EOF / error / timeout, one-byte reads, write fault at each of the first 3 writes (3 kinds), context deadline: the client transcript is a prefix of the RFC 1928/1929 one for the URL's host and port, only the proxy is dialled, any refusal / malformed reply / fault aborts with the proxy connection closed, an accepting reply yields the tunnel (= the proxy connection), and the negotiation runs under the context deadline"],
     DIAL_OUT + ["what tls.Conn.Close really does to the inner connection (documented, assumed)", "real timers"],
     ["transports obey the io contracts"], DIAL_STUBS + HS_STUBS,
     LV + "Reduced scope: which Close / SetDeadline calls happen on which path, under object-level models of net/http and crypto/tls.",
@@ -245,10 +247,10 @@ add("C17", "bytes at the handshake boundary",
     LV, "trusted: engine translation (real bufio executed from SSA), object-level Hijack model")
 
 add("C18", "proxy and TLS on every path (reduced)",
-    [H("vfH_dial_logic", ["dial-success", "dial-refused"], 600), H("vfH_connect_reply", ["connect-reply-end"]), TWIN("vfH_dial_logic")],
-    [H("vfH_dial_logic", ["dial-success", "dial-refused"], 3400, {"tier": 1})],
-    DIAL_BOUNDS + ["trace assertions: first hop dialled with the applicable custom function to the proxy's (else the backend's) host:port with 80/443 defaults; exactly one CONNECT for the backend host:port with Basic Proxy-Authorization iff the proxy URL has a password; non-200 aborts and closes; for wss the request reaches Request.Write only on a connection for which tls.Client, HandshakeContext and (unless InsecureSkipVerify) VerifyHostname(URL host or configured ServerName) succeeded, on the direct, http-proxy and https-proxy paths; with NetDialTLSContext and no proxy no library-side TLS happens"],
-    DIAL_OUT + ["SOCKS5 proxies (proxy.FromURL is not executed)", "sequences of dials sharing one tls.Config"],
+    [H("vfH_dial_logic", ["dial-success", "dial-refused"], 600), H("vfH_connect_reply", ["connect-reply-end"]), H("vfH_socks_reply", ["socks-tunnel", "socks-refused"], 400), TWIN("vfH_dial_logic"), TWIN("vfH_socks_reply")],
+    [H("vfH_dial_logic", ["dial-success", "dial-refused"], 3400, {"tier": 1}), H("vfH_socks_reply", ["socks-tunnel", "socks-refused"], 3000, {"tier": 1})],
+    DIAL_BOUNDS + ["SOCKS5 (vfH_socks_reply): proxyFromURL + the real x/net SOCKS5 client against a scripted proxy whose method-selection (2), RFC 1929 status (2) and reply head (4) bytes are arbitrary and whose bound address is IPv4 / IPv6 / FQDN of length 0, 3, 255 / an unknown type, for socks5 / socks5h URLs with default or explicit port, none / user / user:password credentials, FQDN / IPv4 / IPv6 targets, one (thorough: two) of: stream cut at 5 offsets with EOF / error / timeout, one-byte reads, write fault at each of the first 3 writes (3 kinds), context deadline: the client transcript is a prefix of the RFC 1928/1929 one for the URL's host and port, only the proxy is dialled, any refusal / malformed reply / fault aborts with the proxy connection closed, an accepting reply yields the tunnel (= the proxy connection), and the negotiation runs under the context deadline", "trace assertions: first hop dialled with the applicable custom function to the proxy's (else the backend's) host:port with 80/443 defaults; exactly one CONNECT for the backend host:port with Basic Proxy-Authorization iff the proxy URL has a password; non-200 aborts and closes; for wss the request reaches Request.Write only on a connection for which tls.Client, HandshakeContext and (unless InsecureSkipVerify) VerifyHostname(URL host or configured ServerName) succeeded, on the direct, http-proxy and https-proxy paths; with NetDialTLSContext and no proxy no library-side TLS happens"],
+    DIAL_OUT + ["sequences of dials sharing one tls.Config beyond the two-dial program"],
     ["transports obey the io contracts"], DIAL_STUBS,
     LV + "Reduced scope: call traces under stubs.",
     "trusted: engine translation, call-trace models of crypto/tls and the dial hooks; lowest-confidence check together with C16")
